@@ -178,6 +178,11 @@ def disabled_sessions(ctx: Ctx):
         ("xdist", ["-n", "2"], {}, DISABLED_TEST, {"test_identity": "passed", "test_missing": "passed"}),
         ("xfail", ["--inline-snapshot=fix"], {}, XFAIL_TEST, {"test_identity": "skipped"}),
     ]
+    # every documented CI variable on its own
+    from ..core import CI_VARS
+    for var in CI_VARS:
+        if var != "CI":
+            confs.append(("CI:" + var, [], {var: "1"}, DISABLED_TEST, {"test_identity": "passed", "test_missing": "passed"}))
 
     def one(conf):
         name, args, env, src, want = conf
@@ -238,6 +243,8 @@ def test_6_right_again():
 # comparisons that are evaluated OUTSIDE a test function (module level during collection, parametrize arguments, a session fixture) and legitimately give False,
 # membership in snapshots of str / bytes / dict / range / tuple values, tests that pass either way
 SESSION_SRC2 = """from inline_snapshot import snapshot
+from dataclasses import dataclass, field
+from collections import namedtuple
 import pytest
 
 WINDOWS = "linux" == snapshot("win32")
@@ -282,6 +289,37 @@ def test_5_other_containers():
 
 def test_6_last():
     assert 5 == snapshot(5)
+
+
+# an outer snapshot that is evaluated several times and holds inner snapshots in fields that have a default
+@dataclass
+class Opt:
+    a: int
+    b: int = 5
+    c: list = field(default_factory=list)
+
+
+Pair = namedtuple("Pair", "x y", defaults=[7])
+
+
+def check_opt(v):
+    assert v == snapshot(Opt(a=1, b=snapshot(3), c=snapshot([2])))
+
+
+def test_7_inner_snapshots_in_defaulted_fields():
+    for _ in range(2):
+        assert Opt(a=1, b=3) == snapshot(Opt(a=1, b=snapshot(3)))
+    for _ in range(3):
+        assert [Opt(1)] == snapshot([Opt(a=1, b=snapshot(5))])
+    for y in (2, 2):
+        assert Pair(1, y) == snapshot(Pair(x=1, y=snapshot(2)))
+    check_opt(Opt(1, 3, [2]))
+    check_opt(Opt(1, 3, [2]))
+
+
+@pytest.mark.parametrize("n", [1, 2, 3])
+def test_8_param_inner(n):
+    assert Opt(a=0, b=4) == snapshot(Opt(a=0, b=snapshot(4)))
 """
 
 
